@@ -92,6 +92,10 @@ def _is_bool(v):
     return isinstance(v, (bool, np.bool_))
 
 
+class ArgumentChanged(Exception):
+    """a smart constructor modified the list the caller handed it"""
+
+
 class Interp:
     def __init__(self, symbolic, env=None, exact=False):
         self.sym = symbolic
@@ -175,7 +179,8 @@ class Interp:
             o = self.leaf(pr[1])
             self.n_ops += 1
             if self.sym:
-                return o.attr(pr[2]) if len(pr[2]) % 2 else getattr(o.a, pr[2])
+                # both spellings of a look-up: e.attr("name") and e.a.name
+                return o.attr(pr[2]) if pr[2] in ("a", "b") else getattr(o.a, pr[2])
             return getattr(o, pr[2])
         if tag == "meth":
             a = self.run(pr[2])
@@ -197,13 +202,23 @@ class Interp:
             items = [self.run(a) for a in pr[1]]
             self.n_ops += max(0, len(items) - 1)
             if self.sym:
-                return p.flattened_sum(items)
+                before = list(items)
+                r = p.flattened_sum(items)
+                if len(items) != len(before) or any(x is not y for x, y in zip(items, before)):
+                    raise ArgumentChanged(f"flattened_sum changed its argument list: "
+                                          f"{before!r} -> {items!r}")
+                return r
             return sum(items)
         if tag == "fprod":
             items = [self.run(a) for a in pr[1]]
             self.n_ops += max(0, len(items) - 1)
             if self.sym:
-                return p.flattened_product(items)
+                before = list(items)
+                r = p.flattened_product(items)
+                if len(items) != len(before) or any(x is not y for x, y in zip(items, before)):
+                    raise ArgumentChanged(f"flattened_product changed its argument list: "
+                                          f"{before!r} -> {items!r}")
+                return r
             r = 1
             for it in items:
                 r = r * it
@@ -634,7 +649,7 @@ def program(draw, depth=4, ops=tuple(BIN), mat=False):
             return ["call", f, [rec(depth - 1) for _ in range(d(st.integers(lo, hi)))], kws]
         if c == 15:
             return ["idx", "A", N("int", d(st.integers(-4, 3)))] if d(st.booleans()) \
-                else ["attr", "O", d(st.sampled_from(("a", "b")))]
+                else ["attr", "O", d(st.sampled_from(("a", "b", "b_", "a_", "n_it_", "n_it")))]
         if c == 16:
             m = d(st.sampled_from(tuple(CMP) + ("and_", "or_", "not_")))
             rc = d(st.integers(0, 3))
